@@ -14,6 +14,7 @@ import (
 	"bytes"
 	"fmt"
 	"sort"
+	"strings"
 
 	"github.com/ontio/ontology/core/store/leveldbstore"
 	"github.com/ontio/ontology/core/store/overlaydb"
@@ -148,11 +149,37 @@ func lastWriteSorted(ops []Op) []kvp {
 
 // ---------- Coq printers ----------
 
+// coqB prints a byte string as (pk lastn [chunks]%uint63): 7 bytes per primitive-integer literal,
+// little-endian (decoded by Corr.C03.pk).
+func coqB(b []byte) string {
+	if len(b) == 0 {
+		return "[]"
+	}
+	var sb strings.Builder
+	last := len(b) % 7
+	if last == 0 {
+		last = 7
+	}
+	fmt.Fprintf(&sb, "(pk %d [", last)
+	for i := 0; i < len(b); i += 7 {
+		var x uint64
+		for j := 0; j < 7 && i+j < len(b); j++ {
+			x |= uint64(b[i+j]) << (8 * uint(j))
+		}
+		if i > 0 {
+			sb.WriteByte(';')
+		}
+		fmt.Fprintf(&sb, "%d", x)
+	}
+	sb.WriteString("]%uint63)")
+	return sb.String()
+}
+
 func coqOp(o Op) string {
 	if o.Del {
-		return "ODelete " + hx.CoqBytes(o.key())
+		return "ODelete " + coqB(o.key())
 	}
-	return fmt.Sprintf("OPut %s %s", hx.CoqBytes(o.key()), hx.CoqBytes(o.val()))
+	return fmt.Sprintf("OPut %s %s", coqB(o.key()), coqB(o.val()))
 }
 
 func coqOps(ops []Op) string {
@@ -166,7 +193,7 @@ func coqOps(ops []Op) string {
 func coqKvs(l []kvp) string {
 	s := make([]string, len(l))
 	for i, e := range l {
-		s[i] = fmt.Sprintf("(%s, %s)", hx.CoqBytes(e.k), hx.CoqBytes(e.v))
+		s[i] = fmt.Sprintf("(%s, %s)", coqB(e.k), coqB(e.v))
 	}
 	return hx.CoqList(s)
 }
